@@ -263,7 +263,11 @@ func genC10(t *rapid.T) c10Case {
 		var round []eFill
 		k := rapid.IntRange(0, 4).Draw(t, "nfills")
 		for i := 0; i < k; i++ {
-			round = append(round, eFill{K: rapid.IntRange(0, 7).Draw(t, "k"), N: rapid.IntRange(0, 4).Draw(t, "n")})
+			nn := rapid.IntRange(0, 4).Draw(t, "n")
+			if rapid.IntRange(0, 19).Draw(t, "largeCount") == 19 {
+				nn = rapid.IntRange(9, 13).Draw(t, "nLarge") // two-digit copy indices, more than ten remaining ellipses
+			}
+			round = append(round, eFill{K: rapid.IntRange(0, 7).Draw(t, "k"), N: nn})
 		}
 		c.Rounds = append(c.Rounds, round)
 	}
